@@ -7,10 +7,12 @@ import (
 	"strings"
 	"testing"
 
+	"github.com/akrennmair/updog"
 	"github.com/akrennmair/updog/verifharness/evid"
 	"github.com/akrennmair/updog/verifharness/fix"
 	"github.com/akrennmair/updog/verifharness/gen"
 	"github.com/akrennmair/updog/verifharness/model"
+	"go.etcd.io/bbolt"
 	"pgregory.net/rapid"
 )
 
@@ -164,12 +166,127 @@ func prelude(t *testing.T, sizes []int) {
 			{Name: "c", Kind: gen.KMod, K: 1500, Prefix: "\xff"},
 			{Name: "u", Prefix: "r", Kind: gen.KUnique},
 			{Name: "len", Kind: gen.KLen, K: gen.LenWindows[wi%len(gen.LenWindows)], R: 40},
+			// values that hold for exactly n, 1000, 4096 and 65536 rows (buffer,
+			// batch and container boundaries of the writers)
+			{Name: "k", Kind: gen.KConst, Prefix: "all"},
+			{Name: "b1k", Kind: gen.KDiv, K: 1000},
+			{Name: "b4k", Kind: gen.KDiv, K: 4096},
+			{Name: "b64k", Kind: gen.KDiv, K: 65536},
 		}}}
 		run(t, &Case{Data: spec, Reopens: []fix.OpenCfg{{CacheCap: -1}, {Preload: true, CacheCap: -1}, {CacheCap: 1 << 20}}})
 	}
 }
 
+// ---------------------------------------------------------------- write, add more, write again
+
+// RewriteCase: the in-memory writer is written out, receives more rows (new
+// values in existing columns, new columns, repeated values) and is written
+// out again to a second database.  Each output must be exactly the rows added
+// up to that point.
+type RewriteCase struct {
+	A, B     gen.DataSpec
+	FlushTwo bool // second write through Flush (after moving the first file away) instead of WriteToBoltDatabase
+}
+
+func (c *RewriteCase) Summary() string {
+	return fmt.Sprintf("rewrite: first %s; then %s; second-write-by-flush=%v", c.A.Summary(), c.B.Summary(), c.FlushTwo)
+}
+
+func rewriteOracle(c *RewriteCase) error {
+	dir := fix.CaseDir()
+	defer os.RemoveAll(dir)
+	p1 := fix.TempPath(dir, "first") + ".updog"
+	p2 := fix.TempPath(dir, "second") + ".updog"
+	rowsA, rowsB := c.A.Rows(), c.B.Rows()
+	var ids []uint32
+	err := fix.Safe(func() error {
+		w := updog.NewIndexWriter(p1)
+		for _, r := range rowsA {
+			id, err := w.AddRow(r)
+			if err != nil {
+				return err
+			}
+			ids = append(ids, id)
+		}
+		if err := w.Flush(); err != nil {
+			return fmt.Errorf("first Flush: %v", err)
+		}
+		for _, r := range rowsB {
+			id, err := w.AddRow(r)
+			if err != nil {
+				return err
+			}
+			ids = append(ids, id)
+		}
+		if c.FlushTwo {
+			moved := p1 + ".moved"
+			if err := os.Rename(p1, moved); err != nil {
+				return err
+			}
+			if err := w.Flush(); err != nil {
+				return fmt.Errorf("second Flush: %v", err)
+			}
+			p2, p1 = p1, moved
+			return nil
+		}
+		db, err := bbolt.Open(p2, 0o644, nil)
+		if err != nil {
+			return err
+		}
+		defer db.Close()
+		return w.WriteToBoltDatabase(db)
+	})
+	if err != nil {
+		return err
+	}
+	for i, id := range ids {
+		if id != uint32(i) {
+			return fmt.Errorf("AddRow call #%d returned id %d", i, id)
+		}
+	}
+	all := append(append([]model.Row(nil), rowsA...), rowsB...)
+	for _, chk := range []struct {
+		path string
+		rows []model.Row
+		what string
+	}{{p1, rowsA, "first output (rows added before the first write)"}, {p2, all, "second output (all rows)"}} {
+		for _, oc := range []fix.OpenCfg{{CacheCap: -1}, {Preload: true, CacheCap: -1}} {
+			idx, _, err := fix.Open(chk.path, oc)
+			if err != nil {
+				return fmt.Errorf("%s: open %s: %v", chk.what, oc, err)
+			}
+			perr := fix.ProbeAll(idx, model.NewData(chk.rows), fix.ProbeOpts{})
+			fix.Safe(idx.Close)
+			if perr != nil {
+				return fmt.Errorf("%s, open %s: %v", chk.what, oc, perr)
+			}
+		}
+	}
+	return nil
+}
+
+func runRewrite(t interface{ Fatalf(string, ...any) }, c *RewriteCase) {
+	evid.Case(len(c.A.Rows()) > 0 && len(c.B.Rows()) > 0, c.Summary(), "rewrite")
+	if err := rewriteOracle(c); err != nil {
+		fix.Fail(t, prop, "rewrite", c, c.Summary(), err)
+	}
+}
+
+func drawRewrite(t *rapid.T) *RewriteCase {
+	c := &RewriteCase{FlushTwo: rapid.Bool().Draw(t, "flushtwo")}
+	c.A = *gen.Dataset(t, gen.DataOpts{MaxRows: 20, IdentCols: true, MaxRecipeN: 2500, RecipeProb: 15})
+	c.B = *gen.Dataset(t, gen.DataOpts{MaxRows: 20, IdentCols: true, MaxRecipeN: 2500, RecipeProb: 15})
+	return c
+}
+
 func replay(cf *evid.CaseFile) error {
+	if cf.Sub == "rewrite" {
+		var c RewriteCase
+		if err := evid.Decode(cf.Gob, &c); err != nil {
+			return err
+		}
+		return rewriteOracle(&c)
+	}
 	var c Case
 	if err := evid.Decode(cf.Gob, &c); err != nil {
 		return fmt.Errorf("undecodable case: %v", err)
@@ -186,6 +303,7 @@ func TestQuick(t *testing.T) {
 	fix.Check(t, "recipe", 10, func(rt *rapid.T) {
 		run(rt, drawCase(rt, gen.DataOpts{MaxRecipeN: 12000, RecipeProb: 100, Unique: true}))
 	})
+	fix.Check(t, "rewrite", 60, func(rt *rapid.T) { runRewrite(rt, drawRewrite(rt)) })
 }
 
 func TestThorough(t *testing.T) {
@@ -198,6 +316,7 @@ func TestThorough(t *testing.T) {
 	fix.Check(t, "recipe", 30, func(rt *rapid.T) {
 		run(rt, drawCase(rt, gen.DataOpts{MaxRecipeN: 150000, RecipeProb: 100, Unique: shard%2 == 0}))
 	})
+	fix.Check(t, "rewrite", 400, func(rt *rapid.T) { runRewrite(rt, drawRewrite(rt)) })
 }
 
 func TestReplay(t *testing.T) {
